@@ -148,7 +148,7 @@ func enumerate(kind kit.Kind, fault string, rng *rand.Rand, nOffsets int, thorou
 					if p == "resp-body-mid" && kind == kit.SJSON && k%3 == 2 {
 						size = "large"
 					}
-					out = append(out, hcase{Kind: kind, Target: target, Fault: fault, Point: p, Frac: f, Pending: n, Ctx: "deadline", Size: size, K: 1 + k%2})
+					out = append(out, hcase{Kind: kind, Target: target, Fault: fault, Point: p, Frac: f, Pending: n, Ctx: "deadline", Size: size, K: 1})
 				}
 			}
 		}
